@@ -1,6 +1,10 @@
 package h
 
-import "fmt"
+import (
+	"fmt"
+	"net/url"
+	"time"
+)
 
 // Typed data shapes handed to render calls (the property names map, struct and pointer data).
 
@@ -101,7 +105,8 @@ func BuildData(d DataSpec) any {
 		return map[int]string{1: "one", 2: "two"}
 	case "hostile":
 		// wrong types in the positions the templates use as strings, lists, numbers and maps
-		hv := []any{42, "notalist-" + tag, nil, 3.5, []any{1, "x"}, map[string]any{"k": "v"}, true, pd, &pd, []string{"a"}, map[string]string{"a": "b"}, [2]int{1, 2}}
+		hv := []any{42, "notalist-" + tag, nil, 3.5, []any{1, "x"}, map[string]any{"k": "v"}, true, pd, &pd, []string{"a"}, map[string]string{"a": "b"}, [2]int{1, 2},
+			(*url.URL)(nil), (*time.Time)(nil), time.Duration(1500) * time.Millisecond, &url.URL{Scheme: "https", Host: "example.test", Path: "/" + tag}}
 		pick := func(i int) any { return hv[(d.Variant*7+i*5)%len(hv)] }
 		return map[string]any{
 			"title": pick(0), "name": pick(1), "n": pick(2), "flag": pick(3), "off": pick(4), "items": pick(5), "user": pick(6),
